@@ -539,3 +539,12 @@ META = {
         "add_processing_unit / remove_processing_unit / thread_func / stop_locked steps on the word (not C19 units)",
     ],
 }
+
+
+# ---- the remaining writers of the per-worker state word (second sub-agent): census closure ---------------------------------
+exec(open("/verif/specs/C19/more_spec.py").read())
+UNITS += MORE_UNITS
+for _k in ("trusted_base", "assumptions", "not_decided"):
+    META[_k] = list(META.get(_k, [])) + list(MORE_META.get(_k, []))
+META["census"] = MORE_META.get("census")
+STATIC = list(globals().get("STATIC", [])) + list(MORE_STATIC)
